@@ -326,7 +326,7 @@ class AbstractArray2D(Structure):
     @property
     def original_orientation(self) -> Union[np.ndarray, "Array2D"]:
         return layout_util.rotate_array_via_roe_corner_from(
-            array=np.array(self), roe_corner=self.header.original_roe_corner
+            array=np.array(self.native), roe_corner=self.header.original_roe_corner
         )
 
     @property
